@@ -102,6 +102,14 @@ class Sys:
             workers = -1
         return (order, by_addr, cbs, workers)
 
+    def warm(self) -> None:
+        for a in PROBES:
+            try:
+                self.xknx.devices.process(Telegram(mk_addr(a), payload=GroupValueWrite(DPTBinary(1)), direction=TelegramDirection.INCOMING, source_address=IndividualAddress("1.2.3")))
+            except Exception:  # noqa: BLE001  (judged by probe() in the state where it happens)
+                pass
+        self.log.clear()
+
     def probe(self) -> list[tuple[str, str]]:
         viols: list[tuple[str, str]] = []
         devices = self.xknx.devices
@@ -141,11 +149,15 @@ class Sys:
         return viols
 
 
-def build(specs: Any, started: bool, hist: tuple[tuple[str, int], ...]) -> tuple[Sys, list[tuple[str, str]]]:
+def build(specs: Any, started: bool, hist: tuple[tuple[str, int], ...], traffic: bool = False) -> tuple[Sys, list[tuple[str, str]]]:
+    """traffic: telegrams to every probe address are dispatched after every event of the history (anything the registry
+    remembers from a dispatch - a cache, a snapshot - is warm when the next event changes the registration)."""
     s = Sys(specs, started)
     viols: list[tuple[str, str]] = []
     for ev in hist:
         viols += s.apply(ev)
+        if traffic:
+            s.warm()
     return s, viols
 
 
@@ -167,6 +179,12 @@ def bfs(specs: tuple[tuple[Any, ...], ...], started: bool, part: Part, full_dept
             viols = s.apply(ev) + s.probe()
             k = s.key()
             s.close()
+            if hist:
+                # the same history with bus traffic between the events
+                s2, _ = build(specs, started, hist, traffic=True)
+                for sig, detail in s2.apply(ev) + s2.probe():
+                    viols.append((sig + ":with-traffic-between-events", detail))
+                s2.close()
             part.transitions += 1
             part.evaluations += 1
             part.traces += 1
